@@ -216,7 +216,7 @@ def check_relr(ctx, w):
                msg='bit k (k>=1) must map to base + (k-1)*entrysize: the shift precedes the test and the index counts after it')
     ys = [expr.nfs(y.value, env) for y in ast.walk(f.node) if isinstance(y, ast.Yield)]
     ctx.ob('E-i', f.construct, 'yields anchor entry and computed offsets',
-           sorted(ys) == sorted(['Relocation(struct_parse(_relr_struct,stream,stream_pos=relr),_elffile)', 'Relocation(Container(r_offset=%s),_elffile)' % expr.spec_nf('base + i*_entrysize')]),
+           sorted(ys) == sorted(['Relocation(struct_parse(_relr_struct,stream,relr),_elffile)', 'Relocation(Container(r_offset=%s),_elffile)' % expr.spec_nf('base + i*_entrysize')]),
            got=ys)
     f = w.model.func(REL, 'RelrRelocationTable.__init__')
     env = expr.FEnv(f.node, params=('elffile', 'offset', 'size', 'entrysize'), inline=False)
@@ -427,7 +427,7 @@ def check_apply(ctx, w):
     # (e) read/write agreement, modulo; (g) calc arguments
     tr = expr.assign_trace(f.node, env)
     ctx.ob('W-APPLY', f.construct, 'read at r_offset with value_struct',
-           tr.get('original_value') == [('=', 'struct_parse(value_struct,stream,stream_pos=r_offset)')], got=tr.get('original_value'))
+           tr.get('original_value') == [('=', 'struct_parse(value_struct,stream,r_offset)')], got=tr.get('original_value'))
     want_calc = 'calc_func(recipe,value=original_value,sym_value=sym_value,offset=r_offset,addend=ite(T(has_addend),r_addend,0))'
     rv = tr.get('relocated_value')
     ctx.ob('W-APPLY', f.construct, 'calc arguments', bool(rv) and rv[0] == ('=', want_calc), got=rv[:1] if rv else None, expected=want_calc,
